@@ -8,10 +8,11 @@ use crate::{for_both, Ctx, Tier};
 use blsful::*;
 use serde_json::json;
 
-pub const RULE: &str = "n in {2,3,5,16,33} (quick) / every n in 2..=64 (thorough) x 3 schemes x 2 groups: n fresh keys, n distinct messages (lengths from the length classes), library aggregate. Checked: honest list in original order, reversed, rotated and 3 seeded shuffles must verify; single-position perturbations (message bit flip, key replaced, pair dropped, pair added - with a fresh key, and with the identity key (pairing product unchanged) carrying a fresh / the shared message at first, middle, last position -, two messages swapped between different signers) at positions first/middle/last (quick) or every position for n<=16 and 8 sampled positions above (thorough) must fail; duplicate-message multisets (two signers / all signers share one message) with the algebraically valid aggregate must be rejected by Basic and accepted by Aug and PoP; the same (key, message) pair occurring twice (signature counted twice) in three arrangements must be accepted by Aug and PoP, and the aggregate lacking the second signature must be rejected; refusal matrix of from_signatures: 0 and 1 inputs, every mixed-scheme assignment for n<=3 at every position. Every decision is also taken by the reference CoreAggregateVerify (+ Basic's uniqueness rule) over the same bytes; expectation != reference is a harness error. Distinct by (suite, scheme, variant, list bytes, aggregate); non-trivial = all keys decode, aggregate not the identity, the multi-pairing decides.";
+pub const RULE: &str = "n in {2,3,5,16,33} (quick) / every n in 2..=64 (thorough) x 3 schemes x 2 groups: n fresh keys, n distinct messages (lengths from the length classes), library aggregate (always through BOTH doors, AggregateSignature::from_signatures and TryFrom<&[Signature]>, which must agree; an acceptance through either counts). Checked: honest list in original order, reversed, rotated and 3 seeded shuffles must verify; single-position perturbations (message bit flip, key replaced, pair dropped, pair added - with a fresh key, and with the identity key (pairing product unchanged) carrying a fresh / the shared message at first, middle, last position -, two messages swapped between different signers) at positions first/middle/last (quick) or every position for n<=16 and 8 sampled positions above (thorough) must fail; duplicate-message multisets (two signers / all signers share one message) with the algebraically valid aggregate must be rejected by Basic and accepted by Aug and PoP; the same (key, message) pair occurring twice (signature counted twice) in three arrangements must be accepted by Aug and PoP, and the aggregate lacking the second signature must be rejected; refusal matrix of from_signatures: 0 and 1 inputs, every mixed-scheme assignment for n<=3 at every position. Every decision is also taken by the reference CoreAggregateVerify (+ Basic's uniqueness rule) over the same bytes; expectation != reference is a harness error. Distinct by (suite, scheme, variant, list bytes, aggregate); non-trivial = all keys decode, aggregate not the identity, the multi-pairing decides.";
 
 pub fn run(ctx: &mut Ctx) {
     for_both!(run_suite, ctx);
+    flush_entry_point_disagreements(ctx, "C06");
 }
 
 fn sizes(t: Tier) -> Vec<usize> {
@@ -87,7 +88,7 @@ fn one_list<C: Suite>(ctx: &mut Ctx, g: u64, scheme: Scheme, cnt: usize) {
         })
         .collect();
     let sigs: Vec<Signature<C>> = sks.iter().zip(&msgs).map(|(s, m)| s.sign(lscheme(scheme), m).expect("sign")).collect();
-    let agg = match AggregateSignature::<C>::from_signatures(&sigs) {
+    let agg = match agg_from::<C>(&sigs) {
         Ok(a) => a,
         Err(e) => {
             ctx.violation(&format!("C06/aggregation-refused/{n}/{sn}"), json!({"n":cnt,"err":e.to_string()}));
@@ -164,7 +165,7 @@ fn one_list<C: Suite>(ctx: &mut Ctx, g: u64, scheme: Scheme, cnt: usize) {
             m2[cnt - 1] = msgs[0].clone();
         }
         let sigs2: Vec<Signature<C>> = sks.iter().zip(&m2).map(|(s, m)| s.sign(lscheme(scheme), m).expect("sign")).collect();
-        let agg2 = AggregateSignature::<C>::from_signatures(&sigs2).expect("aggregate");
+        let agg2 = agg_from::<C>(&sigs2).expect("aggregate");
         let d: Vec<(PublicKey<C>, Vec<u8>)> = pks.iter().copied().zip(m2.iter().cloned()).collect();
         let expect = scheme != Scheme::Basic;
         check::<C>(ctx, &format!("{n}/{sn}/{kind}"), scheme, kind, expect, &agg2, &d);
@@ -188,7 +189,7 @@ fn one_list<C: Suite>(ctx: &mut Ctx, g: u64, scheme: Scheme, cnt: usize) {
     {
         let mut sigs2 = sigs.clone();
         sigs2.push(sigs[0]);
-        if let Ok(agg2) = AggregateSignature::<C>::from_signatures(&sigs2) {
+        if let Ok(agg2) = agg_from::<C>(&sigs2) {
             let dup = data[0].clone();
             let mut arrangements: Vec<(&str, Vec<(PublicKey<C>, Vec<u8>)>)> = Vec::new();
             let mut d = data.clone();
@@ -221,12 +222,12 @@ fn refusal<C: Suite>(ctx: &mut Ctx, g: u64) {
     let mk = |s: Scheme, i: u8| sk.sign(lscheme(s), &[i, 1, 2, 3]).expect("sign");
     // too few
     let none: Vec<Signature<C>> = vec![];
-    let r0 = ctx.guard("AggregateSignature::from_signatures", || json!({"n":0}), || AggregateSignature::<C>::from_signatures(&none).is_ok());
+    let r0 = ctx.guard("AggregateSignature::from_signatures", || json!({"n":0}), || agg_from::<C>(&none).is_ok());
     ctx.expect(r0 == Some(false), &format!("C06/accepted-too-few/{n}/0"), || json!({"what":"aggregation of zero signatures accepted"}));
     ctx.hit(&format!("{n}/refusal/too-few"), &[&[0]]);
     for s in SCHEMES {
         let one = vec![mk(s, 0)];
-        let r1 = ctx.guard("AggregateSignature::from_signatures", || json!({"n":1}), || AggregateSignature::<C>::from_signatures(&one).is_ok());
+        let r1 = ctx.guard("AggregateSignature::from_signatures", || json!({"n":1}), || agg_from::<C>(&one).is_ok());
         ctx.expect(r1 == Some(false), &format!("C06/accepted-too-few/{n}/1"), || json!({"what":"aggregation of one signature accepted","scheme":s.name()}));
         ctx.hit(&format!("{n}/refusal/too-few"), &[&[1, s.wire()]]);
     }
@@ -242,7 +243,7 @@ fn refusal<C: Suite>(ctx: &mut Ctx, g: u64) {
             }
             let uniform = assign.iter().all(|s| *s == assign[0]);
             let sigs: Vec<Signature<C>> = assign.iter().enumerate().map(|(i, s)| mk(*s, i as u8)).collect();
-            let r = ctx.guard("AggregateSignature::from_signatures", || json!({"assign":assign.iter().map(|s| s.name()).collect::<Vec<_>>()}), || AggregateSignature::<C>::from_signatures(&sigs).is_ok());
+            let r = ctx.guard("AggregateSignature::from_signatures", || json!({"assign":assign.iter().map(|s| s.name()).collect::<Vec<_>>()}), || agg_from::<C>(&sigs).is_ok());
             let Some(r) = r else { continue };
             let names: Vec<&str> = assign.iter().map(|s| s.name()).collect();
             if uniform {
